@@ -114,6 +114,10 @@ fn main() {
         walbuf_stream(&a);
         return;
     }
+    if a.stream == "crashshards" {
+        crashshards_stream(&a);
+        return;
+    }
     let crashes = match a.stream.as_str() {
         "crash" | "crashmid" => true,
         other => {
@@ -355,6 +359,85 @@ fn walbuf_stream(a: &snel_harness::out::Args) {
         match fail {
             None => st.oracle_ok(),
             Some(d) => st.oracle_fail(i, "-", &format!("{d}; {op}")),
+        }
+    }
+    st.finish();
+}
+
+
+/// Oracle-only: several shards, free-running flushes (nothing parked), one process lifetime per
+/// round, SIGKILL at an arbitrary moment once the WAL tasks have taken every entry, restart.
+/// In a lifetime without manual FLUSH the WAL log ids and the level-0 segment ids of a shard
+/// advance together (`C01_durable_partial`), so every acknowledged event must be served after the
+/// restart — whatever the flush workers of the shards were doing when the kill came.
+fn crashshards_stream(a: &snel_harness::out::Args) {
+    use serde_json::json;
+    use snel_harness::sys::Session;
+    let mut st = Stream::create(&a.out, "crashshards");
+    for i in 0..a.cases {
+        if a.only.is_some_and(|o| o != i) {
+            continue;
+        }
+        let mut r = Rng::for_case(a.seed, "crashshards", i);
+        let shards = 2 + r.below(3) as usize;
+        let cfg = SysCfg { shards, event_per_zone: 1 + r.below(3) as usize, fill_factor: 1 + r.below(3) as usize, ..Default::default() };
+        let root = a.out.join(format!("crashshards-{i}"));
+        let _ = std::fs::remove_dir_all(&root);
+        let mut s = Session::start(&root, &cfg);
+        assert!(s.cmd("DEFINE ev0 FIELDS { k: \"int\" }").map(|x| x.ok()).unwrap_or(false));
+        let nctx = 2 + r.below(6);
+        let n = 5 + r.below(40);
+        for k in 1..=n {
+            assert!(s.cmd(&format!("STORE ev0 FOR c{} PAYLOAD {{\"k\":{k}}}", r.below(nctx))).map(|x| x.ok()).unwrap_or(false));
+            if r.below(12) == 0 {
+                std::thread::sleep(std::time::Duration::from_millis(r.below(30)));
+            }
+        }
+        // every entry has been handed to a WAL writer (flush_each_write: it is in the file)
+        let t0 = std::time::Instant::now();
+        loop {
+            let h = s.ctl(json!({"ctl": "hits", "point": "wal.appended"})).and_then(|v| v["hits"].as_u64()).unwrap_or(0);
+            if h >= n || t0.elapsed().as_secs() > 20 {
+                break;
+            }
+            std::thread::sleep(std::time::Duration::from_millis(1));
+        }
+        std::thread::sleep(std::time::Duration::from_micros(r.below(40_000)));
+        s.kill();
+        // state of the disk at the kill: a shard with a segment directory but no index file is the
+        // known corner (finding C01-kill-in-first-segment-write)
+        let mut first_write = false;
+        let mut dirs_total = 0;
+        for sh in 0..shards {
+            let d = s.shard_data_dir(sh);
+            let has_dir = std::fs::read_dir(&d).map(|rd| rd.flatten().any(|e| e.file_name().to_string_lossy().chars().all(|c| c.is_ascii_digit()) && e.path().is_dir())).unwrap_or(false);
+            dirs_total += std::fs::read_dir(&d).map(|rd| rd.flatten().filter(|e| e.path().is_dir() && e.file_name().to_string_lossy().chars().all(|c| c.is_ascii_digit())).count()).unwrap_or(0);
+            if has_dir && !d.join("segments.idx").exists() {
+                first_write = true;
+            }
+        }
+        let mut s = Session::start(&root, &cfg);
+        let q = s.cmd("QUERY ev0 RETURN [k]").expect("query");
+        let mut keys: Vec<u64> = q.col("k").iter().filter_map(|v| v.as_u64()).collect();
+        keys.sort();
+        let c = s.cmd("QUERY ev0 COUNT").expect("count");
+        let count = c.rows.first().and_then(|r| r.first()).and_then(|v| v.as_u64()).unwrap_or(0);
+        drop(s);
+        let _ = std::fs::remove_dir_all(&root);
+        let want: Vec<u64> = (1..=n).collect();
+        let desc = format!("crashshards shards={shards} cap={} stores={n} dirs_at_kill={dirs_total}", cfg.capacity());
+        st.tally(&format!("shards={shards}"));
+        st.tally_n("segment_dirs_at_kill", dirs_total as u64);
+        st.tally(if first_write { "kill_with_dir_without_index" } else { "kill_other" });
+        st.case(&desc, "-", dirs_total > 0);
+        if keys != want {
+            let class = if first_write { "kill-in-first-segment-write" } else { "-" };
+            st.oracle_fail(i, class, &format!("after the restart the selection is {keys:?}, acknowledged 1..={n}; {desc}"));
+        } else if count != n {
+            let class = if first_write { "kill-in-first-segment-write" } else if count > n { "wal-replay-duplicates-flushed-events" } else { "-" };
+            st.oracle_fail(i, class, &format!("after the restart COUNT is {count}, acknowledged {n}; {desc}"));
+        } else {
+            st.oracle_ok();
         }
     }
     st.finish();
